@@ -83,7 +83,15 @@ def run_scenario(bins, sc, keep=False):
         args += sc.get("extra_args", [])
         fx.reset_helper()
         t0 = time.time()
-        res = fx.monorail(args, env=sc.get("env"), timeout=sc.get("timeout", 150))
+        env = dict(sc.get("env") or {})
+        hook_trace = os.path.join(fx.root, "hooks.ndjson")
+        if sc.get("hook_trace"):
+            env["MONORAIL_VERIF_TRACE"] = hook_trace
+        res = fx.monorail(args, env=env, timeout=sc.get("timeout", 150))
+        hooks = []
+        if sc.get("hook_trace") and os.path.exists(hook_trace):
+            with open(hook_trace) as f:
+                hooks = sorted((json.loads(l) for l in f if l.strip()), key=lambda e: e["seq"])
         wall = time.time() - t0
         # wait for stragglers (cancelled siblings keep running after monorail exits)
         deadline = time.time() + sc.get("straggler_wait", 3.0)
@@ -116,7 +124,7 @@ def run_scenario(bins, sc, keep=False):
                "doc": doc_abs(res["out"], len(cmds)), "timeout": bool(res.get("timeout")),
                "label": sc.get("label", "")}
         dbg = {"stderr": res["stderr"].decode("utf-8", "replace")[-600:], "wall": wall, "args": args,
-               "raw_events": evs if keep else None}
+               "raw_events": evs if keep else None, "hooks": hooks, "out": res["out"], "cmds": cmds}
         return rec, dbg
     finally:
         fx.cleanup()
@@ -335,3 +343,27 @@ def barrier_scenario(size, position, seed=0, shared=False):
                 t["commands"] = {"path": "tools/cmd"}
         sc["cmd_dirs"] = {m: "tools/cmd" for m in members}
     return sc
+
+
+def impl_trace(rec, dbg):
+    """The internal hook events of one run as a trace for RunImplTrace.tla (first record: the plan as executed)."""
+    out = dbg.get("out")
+    if not (isinstance(out, dict) and out.get("results")):
+        return None
+    cmds = dbg["cmds"]
+    groups = [sorted(g.keys()) for g in out["results"][0]["target_groups"]]
+    req = sorted(t for g in groups for t in g)
+    kinds = [[k[0], "/".join(k[1]), k[2]] for k in rec["kinds"] if "/".join(k[1]) in req]
+    plan = {"ev": "plan", "ncmd": len(cmds), "req": req, "dep": [], "kinds": kinds, "fou": rec["fou"],
+            "mode": "serial" if rec["mode"] == "targets" else "graph", "groups": groups}
+    names = {"run.group_begin": "group_begin", "run.sched_failed": "sched_failed", "run.group_scheduled": "group_scheduled",
+             "run.join_next": "join_next", "run.group_joined": "group_joined", "run.shutdown_send": "shutdown_send",
+             "run.group_end": "group_end"}
+    evs = [{"ev": names[h["point"]], "t": h.get("arg", "")} for h in dbg["hooks"] if h["point"] in names]
+    statuses = []
+    for ci, cr in enumerate(out["results"], 1):
+        for g in cr["target_groups"]:
+            for t, v in g.items():
+                statuses.append([ci, t, v.get("status")])
+    fin = {"ev": "finish", "t": "", "failed": bool(out.get("failed")), "rc": rec["rc"], "statuses": statuses}
+    return [plan] + evs + [fin]
